@@ -161,6 +161,11 @@ def run(chk):
             raise core.Machinery('the negative instance (shallow like) was not rejected by TLC')
     # keep maximal behaviours only: a behaviour that is a proper prefix of another one is replayed as part of it
     full = _maximal(behs)
+    if tier == 'quick' and len(full) > 45000:
+        # (quick tier: a seeded stride sample of at most ~45 000 behaviours of the cover; TLC has checked all of it, the thorough tier replays more)
+        k = -(-len(full) // 45000)
+        full = sorted(full, key=lambda h: json.dumps(h, sort_keys=True))[chk.seed % k::k]
+        chk.extra['model']['quick_replay_stride'] = k
     chk.extra['model']['maximal_behaviours_replayed'] = len(full)
     sim = simulate(chk, 'MC_System_%s_sim.cfg' % pid, 120 if tier == 'quick' else 4000, 9, chk.seed)
     # the EXTENSION instance: the rest of the deriving operations C20 lists (bitwise operators and masks, expanding shifts, NumPy
